@@ -753,14 +753,36 @@ def template_ok(prog, s: NameSite):
     """The object is only placed in a throw-away grammar that is the receiver of `.substitute`, whose result is
     returned."""
     fn = s.func.node
+
+    def returns_substitute(f, receivers=None):
+        rets = [r for r in ast.walk(f) if isinstance(r, ast.Return) and r.value is not None]
+        if len(rets) != 1:
+            return False
+        r = rets[0].value
+        return isinstance(r, ast.Call) and isinstance(r.func, ast.Attribute) and r.func.attr == "substitute" and \
+            isinstance(r.func.value, ast.Name) and (receivers is None or r.func.value.id in receivers)
+    if returns_substitute(fn):
+        return True, ""
+    # the template is built (possibly once, and kept) by a private helper that hands it to its callers: every caller
+    # must eliminate it through substitute() before returning
+    if s.func.name.startswith("_") and s.func.cls is not None:
+        callers = []
+        for m in s.func.cls.methods.values():
+            if m is s.func:
+                continue
+            for st in ast.walk(m.node):
+                if isinstance(st, ast.Assign) and isinstance(st.value, ast.Call) and isinstance(st.value.func, ast.Attribute) \
+                        and st.value.func.attr == s.func.name:
+                    names_ = {x.id for t in st.targets for x in ast.walk(t) if isinstance(x, ast.Name)}
+                    callers.append((m, names_))
+        if callers and all(returns_substitute(m.node, names_) for m, names_ in callers):
+            return True, ""
+        if callers:
+            return False, "a caller of %s does not eliminate the template through substitute() before returning" % s.func.name
     rets = [r for r in ast.walk(fn) if isinstance(r, ast.Return) and r.value is not None]
     if len(rets) != 1:
         return False, "template function has several return paths"
-    r = rets[0].value
-    if not (isinstance(r, ast.Call) and isinstance(r.func, ast.Attribute) and r.func.attr == "substitute"
-            and isinstance(r.func.value, ast.Name)):
-        return False, "the template grammar is not eliminated through substitute() before returning"
-    return True, ""
+    return False, "the template grammar is not eliminated through substitute() before returning"
 
 
 def counter_suffix_ok(prog, s: NameSite):
